@@ -96,6 +96,15 @@ var c17Broken = []string{
 	"ok {% macro m( %}{% endmacro %}", "ok {{ f(a : b) }}", "ok {% use 'flib' wiht a as b %}", "ok {{",
 }
 
+func findExtendsN(ns []*m.N) bool {
+	for _, n := range ns {
+		if n.K == "extends" {
+			return true
+		}
+	}
+	return false
+}
+
 func cloneProg(p *m.Program) *m.Program {
 	b, _ := json.Marshal(p)
 	var q m.Program
@@ -257,12 +266,12 @@ func init() {
 				return nil
 			}
 			req := c17Req(cs.P)
-			req.LoadFailAt = cs.F.K
+			req.LoadFailAt, req.LoadFailMode = cs.F.K, cs.F.Mode
 			if f := check(c.SB.Do(req), base.Out, "load"); f != nil {
 				return f
 			}
 			req2 := c17Req(cs.P)
-			req2.LoadFailAt = cs.F.K
+			req2.LoadFailAt, req2.LoadFailMode = cs.F.K, cs.F.Mode
 			if f := safeNothing(req2, "load"); f != nil {
 				return f
 			}
@@ -293,6 +302,30 @@ func init() {
 			faulty, top := withConstruct(cs.P, cs.F.Pos, cs.F.What)
 			if cs.F.What == "parent-outside" && !top {
 				return nil
+			}
+			// At the top level of an extending template only definitions are
+			// executed (set, import, from, macro, use): the marker, a do tag, is
+			// not, so reachability there follows from the kind of construct.
+			direct := false // the construct is a direct child of the entry template's body
+			if ins := c17Construct(cs.F.What); len(ins) > 0 {
+				want, _ := jsonStr(ins[0])
+				for _, n := range faulty.Tpl(faulty.Entry).Body {
+					if got, _ := jsonStr(n); got == want {
+						direct = true
+					}
+				}
+			}
+			if top && findExtendsN(cs.P.Tpl(cs.P.Entry).Body) && !direct {
+				reached = false // inside an if / for at the child's top level: never executed
+			} else if top && findExtendsN(cs.P.Tpl(cs.P.Entry).Body) {
+				switch cs.F.What {
+				case "broken-import", "err-in-set":
+					reached = true
+				case "unknown-macro":
+					return nil // its import is executed, its print is not
+				default:
+					reached = false
+				}
 			}
 			r := c.SB.Do(c17Req(faulty))
 			if r.Fatal() || r.Status == "infra" {
@@ -354,7 +387,10 @@ func init() {
 				}
 			}
 			for k := 1; k <= base.NLoads; k++ {
-				sub.Check(c, &c17Case{P: prog, F: c17Fault{Kind: "load", K: k}})
+				// the Load call fails; the template's reader fails half-way; at once
+				for mode := 0; mode <= 2; mode++ {
+					sub.Check(c, &c17Case{P: prog, F: c17Fault{Kind: "load", K: k, Mode: mode}})
+				}
 			}
 			npos := countStmts(prog.Tpl(prog.Entry).Body)
 			for pos := 0; pos < npos; pos++ {
